@@ -101,7 +101,8 @@ CHECKS.update({
              "ready only through a good CER / CEA 2001 (direction-exact from CONNECTED).",
              "C06_gate_connected/_closing, C06_cer_known/_unknown/_no_common/_election_won/_election_lost/_ignored_unless_connected, C06_unknown_then_closed, "
              "C06_outbound_first_is_cer, C06_cea_accepted/_rejected/_wrong_identity/_without_origin/_ignored_unless_connected, C06_timeout, "
-             "C06_ready_only_from_connected, C06_direction(_inbound/_outbound), C06_cea_never_revives"),
+             "C06_ready_only_from_connected, C06_direction(_inbound/_outbound), C06_cea_never_revives; over whole histories (Proofs/NodeH.v): C06_history_gate, "
+             "C06_history_gate_connected (C06_history_gate_ready_refuted: the gate is also open in DISCONNECTING)"),
  "C07": node("C07", "One dispatched message yields at most one queued message, an answer on the same connection to a REQUEST with its command/app/ids; a "
              "non-request is never answered; events other than a network read or an application answer queue requests only; every dispatched request that "
              "passes the gate is answered or delivered.",
@@ -112,7 +113,8 @@ CHECKS.update({
              "C08_route_refines, C08_exactly_once, C08_base_never_delivered, C08_gate_then_route"),
  "C09": node("C09", "An application's answer is handed to exactly one READY connection under whose host identity the (hop-by-hop, end-to-end) pair was "
              "waiting, otherwise NotRoutable; entries arise only from delivered requests; second submission fails; entries go with the connection.",
-             "C09_answer_shape, C09_to_requester, C09_entry_from_delivery, C09_entry_host, C09_gone_is_error, C09_second_fails, C09_second_is_error, C09_removed_on_close; over whole histories: C07_history_app_answers (the answer goes out on the connection that read the request)"),
+             "C09_answer_shape, C09_to_requester, C09_entry_from_delivery, C09_entry_host, C09_gone_is_error, C09_second_fails, C09_second_is_error, C09_removed_on_close; over whole histories: C07_history_app_answers (the answer goes out on the connection that read the request); "
+             "the atomic submission step is checked against every line interleaving (bounded pre-emptions) of concurrent route_answer/send_message calls"),
  "C10": node("C10", "route_request refines its specification (application's peers for the realm, else defaults, ready only); the request goes to a peer "
              "chosen from the usable list, identifiers fresh from the generators (bridge to the C16 counter theorems), NotRoutable when none; the "
              "answer is correlated to the recorded application once, duplicates ignored.",
@@ -122,7 +124,7 @@ CHECKS.update({
  "C11": node("C11", "check_timers unfolded as a decision table over state x timers with per-peer override; exactly one DWR when idle, none while waiting, "
              "DWA restores READY, silence closes with the watchdog reason, no DWR while traffic arrives, DWR answered 2001 in both ready sub-states, "
              "timer check idempotent.",
-             "check_timers_unfold, C11_peer_overrides, C11_idle_sends_one, C11_no_second_dwr, C11_dwa_restores, C11_silence_closes, C11_no_dwr_while_busy, C11_dwr_answered, C11_timers_idempotent"),
+             "check_timers_unfold, C11_peer_overrides, C11_idle_sends_one, C11_no_second_dwr, C11_dwa_restores, C11_silence_closes, C11_no_dwr_while_busy, C11_dwr_answered, C11_timers_idempotent; over whole histories (Proofs/NodeH.v): C11_history_one_dwr (a DWA is read between any two DWRs of a connection), C11_history_quiet_until_dwa"),
  "C12": node("C12", "DPR -> DPA 2001, DISCONNECTING (not offered by route_request), reason recorded; reconnect_all dials exactly the peers satisfying the "
              "declarative policy (persistent, no connection, wait elapsed, not after DPR unless always-reconnect, not stopping); non-persistent "
              "peers are never dialled by any event; invariant: at most one self-initiated connection per peer in every reachable state.",
@@ -141,7 +143,7 @@ CHECKS.update({
              text=("Props/C14.v: slots held = handlers running + responses queued in every reachable state; capacity returns; both consumers survive every "
                    "handler outcome and unroutable answers; thread limit respected. Correspondence: random histories (answer / none / raise / slow "
                    "handlers, limits 0..3, connection loss, clock) compared with Model/Slots.v after every event; node fault histories: no thread "
-                   "death, no spin; serve-after-fault probe. PARTIAL: absence of exceptions the model does not contain is observed, not proved."),
+                   "death, no spin; serve-after-fault probe (incl. two connections breaking in one I/O round, stalled handshakes closed by the timer; one reader and one writer per live connection afterwards). PARTIAL: absence of exceptions the model does not contain is observed, not proved."),
              design_ref="DESIGN.md section 6 C14", note=NODE_NOTE),
  "C15": dict(engine="coq-conc",
              technique="Coq proof: inductive invariant over ALL interleavings (load/store granularity) of the writer and I/O thread programs translated from the source, for all partial-write/soft-error patterns and any encoder; Link lemmas by reflexivity; bounded-preemption schedule exploration of the real node as failing-input search",
@@ -159,7 +161,8 @@ CHECKS.update({
              "C17_history_duplicate_rejected, C17_history_no_false_duplicate"),
  "C18": node("C18", "stop: one DPR to every ready connection (none when forced), stopping flag; while stopping no timers fire, nothing is dialled, newcomers "
              "are closed unserved; DPA closes once output is flushed; stop-finish closes every connection.",
-             "C18_dpr_to_ready, C18_quiet_while_stopping, C18_newcomers_refused, C18_all_closed, C18_close_after_dpa",
+             "C18_dpr_to_ready, C18_quiet_while_stopping, C18_newcomers_refused, C18_all_closed, C18_close_after_dpa; over whole histories (Proofs/NodeH.v): "
+             "C18_history_stopping_is_forever, C18_history_quiet, C18_history_newcomers_refused (C18_history_quiet_start_refuted / _conn_done_refuted: the two exceptions)",
              extra="thread termination and socket closure are observed on the implementation (threads are not in the model): partial"),
  "C19": node("C19", "Bounded windows in every reachable state; per-connection and per-transaction entries leave the tables with the connection / the answer. "
              "Implementation: 18 kinds of transaction / connection-attempt histories at N = 1, 10, 100 (1000 thorough); sizes of all containers reachable "
